@@ -237,8 +237,9 @@ def _ops(ctx, mod, cname, cluster, accounting=True):
     return ci, interp, obj
 
 
-def _target(name):
-    return Obj("target", name=name, options={}, spec="x", working_dir="/w")
+def _target(ctx, name):
+    from .evalhelpers import target_obj
+    return target_obj(ctx, name=name, options={}, spec="x", working_dir="/w")
 
 
 def submit_sequence(ctx, kind, mod, cname):
@@ -259,7 +260,7 @@ def submit_sequence(ctx, kind, mod, cname):
     for name, deps in plans:
         before = len(cl.created)
         try:
-            got = interp.call(m, (_target(name), list(deps)), {}, self_obj=obj)
+            got = interp.call(m, (_target(ctx, name), list(deps)), {}, self_obj=obj)
         except Raised as exc:
             diffs.append(f"{cname}.submit_target({name}, {len(deps)} prerequisites) raises {exc.kind}: {exc.detail[:80]}")
             n += 1
@@ -298,7 +299,7 @@ def submit_refusals(ctx, kind, mod, cname):
     m = ctx.index.method(ci, "submit_target")
     if kind != "sge":      # qsub accepts unknown ids in -hold_jid (they count as finished)
         try:
-            got = interp.call(m, (_target("T"), ["11", "12"]), {}, self_obj=obj)
+            got = interp.call(m, (_target(ctx, "T"), ["11", "12"]), {}, self_obj=obj)
             n += 1
             for jid in cl.created:
                 if cl.jobs[jid]["deps"] != {"11", "12"}:
@@ -313,7 +314,7 @@ def submit_refusals(ctx, kind, mod, cname):
     cl.mute_ids = True
     ci, interp, obj = _ops(ctx, mod, cname, cl)
     try:
-        got = interp.call(m, (_target("T"), []), {}, self_obj=obj)
+        got = interp.call(m, (_target(ctx, "T"), []), {}, self_obj=obj)
         n += 1
         if got is None or got == "" or got is False:
             diffs.append(f"{cname}.submit_target returns {got!r} when the scheduler's answer carries no job id: the submission counts as accepted "
